@@ -65,9 +65,9 @@ Lemma validate_root_forget : forall toks,
   validate_root toks = match parse_root toks with Ok _ => Ok tt | Reject => Reject | OutOfFuel => OutOfFuel end.
 Proof.
   intros toks. unfold validate_root, parse_root, validate_or, parse_or.
-  rewrite (validate_or_with_forget (parse_op (length toks)) (validate_op (length toks)) (validate_op_forget _)).
+  rewrite (validate_or_with_forget (parse_op (S (length toks))) (validate_op (S (length toks))) (validate_op_forget _)).
   destruct toks as [|t toks]; simpl.
-  - destruct (parse_or_with (parse_op 0) 0 []) as [[a [|x [|y r]]]| |]; reflexivity.
+  - destruct (parse_or_with (parse_op 1) 1 []) as [[a [|x [|y r]]]| |]; reflexivity.
   - destruct t; try reflexivity;
     match goal with |- context [parse_or_with ?o ?n ?t] => destruct (parse_or_with o n t) as [[a [|x [|y r]]]| |]; reflexivity end.
 Qed.
